@@ -10,6 +10,7 @@
     subprocess started by the real Environment.
 """
 import os
+import sys
 import json
 import shutil
 import tempfile
@@ -508,7 +509,14 @@ def real_sequence(arg):
     ref = Reference()
     try:
         for name, args in seq_items:
-            exp = ref.expected(name, args)
+            # the in-process reference must see the module path the server process has: not the generated project the
+            # harness itself put on sys.path (namecheck executes generated programs), not the current directory
+            saved = sys.path[:]
+            sys.path[:] = [p for p in sys.path if p not in ('', '.', nc.PROJECT_DIR)]
+            try:
+                exp = ref.expected(name, args)
+            finally:
+                sys.path[:] = saved
             got = call_with_deadline(env, name, args, 60)
             part.count('real_replies_compared')
             part.outcome(('real', name, got[0]))
